@@ -13,7 +13,8 @@ RECURSIVE Dedup(_, _, _)
 Dedup(s, i, acc) == IF i > Len(s) THEN acc ELSE Dedup(s, i + 1, IF InSeq(s[i], acc) THEN acc ELSE Append(acc, s[i]))
 DD(s) == Dedup(s, 1, <<>>)
 Filters == <<<<"a", NULL, NULL>>, <<NULL, ":r", NULL>>, <<NULL, NULL, "b">>, <<"b", ":r", "a">>, <<NULL, NULL, "x">>,
-            <<NULL, ":instance", NULL>>, <<"a", ":instance", "a">>, <<NULL, ":instance", "b">>>>   \* (the concept role as a criterion)
+            <<NULL, ":instance", NULL>>, <<"a", ":instance", "a">>, <<NULL, ":instance", "b">>,
+            <<NULL, NULL, "">>, <<"", NULL, NULL>>>>   \* (the concept role as a criterion; a criterion that is given but empty selects nothing)
 
 SpecAct(a, n) == IF a.op = "new"
                  THEN [op |-> "new", g |-> MkGraph(a.tr, a.xtop, [i \in DOMAIN a.tr |-> Tag(n)])]
